@@ -107,6 +107,22 @@ macro_rules! build_layer {
             })
             .on_call_permitted(|st| {
                 world::note("permitted", st as i64, 0);
+                let ms = world::with(|w| match w.cb_block {
+                    Some((nth, ms, repeat)) => {
+                        w.cb_block_seen = w.cb_block_seen.saturating_add(1);
+                        if w.cb_block_seen == nth || (repeat && w.cb_block_seen > nth) {
+                            ms
+                        } else {
+                            0
+                        }
+                    }
+                    None => 0,
+                });
+                if ms > 0 {
+                    // a listener that takes its time (a slow log sink): it only observes, so the
+                    // time it takes is not part of the call
+                    world::block_for(ms);
+                }
             })
             .on_call_rejected(|| {
                 world::note("rejected", 0, 0);
@@ -308,6 +324,10 @@ pub enum Step {
 pub struct Scn4 {
     pub cfg: Cfg,
     pub steps: Vec<Step>,
+    /// (n, ms, repeat): the call-permitted listener blocks the thread for `ms` at the n-th
+    /// permitted call (and every later one if `repeat`)
+    #[serde(default)]
+    pub block: Option<(u8, u64, bool)>,
 }
 
 fn gen_cfg(rng: &mut Rng, small: bool) -> Cfg {
@@ -385,7 +405,7 @@ fn gen4_exact(rng: &mut Rng) -> Scn4 {
             Step::Call { lat_ms: 0, err: if bad { Some(0) } else { None }, flag: false }
         });
     }
-    Scn4 { cfg, steps }
+    Scn4 { cfg, steps, block: None }
 }
 
 pub fn gen4(rng: &mut Rng) -> Scn4 {
@@ -421,13 +441,15 @@ pub fn gen4(rng: &mut Rng) -> Scn4 {
         };
         steps.push(s);
     }
-    Scn4 { cfg, steps }
+    let block = if rng.chance(1, 6) { Some((rng.range(1, 4) as u8, *rng.pick(&[3u64, 19, 20, 25, 60]), rng.chance(2, 3))) } else { None };
+    Scn4 { cfg, steps, block }
 }
 
 pub fn valid4(s: &Scn4) -> bool {
     cfg_valid(&s.cfg)
         && !s.steps.is_empty()
         && s.steps.len() <= 260
+        && s.block.map(|b| b.0 >= 1 && b.0 <= 8 && b.1 >= 1 && b.1 <= 200).unwrap_or(true)
         && s.steps.iter().all(|st| match st {
             Step::Call { lat_ms, err, .. } => *lat_ms <= 100 && err.map(|k| k <= 1).unwrap_or(true) && s.cfg.slow_ms.map(|t| *lat_ms != t).unwrap_or(true),
             Step::Advance(d) => *d >= 1 && *d <= 500,
@@ -455,6 +477,7 @@ pub fn run4(s: &Scn4, ctx: &mut RunCtx) -> RunOutput {
         let steps = scn.steps.clone();
         // scripts: request id = step index
         world::with(|w| {
+            w.cb_block = scn.block;
             for (i, st) in steps.iter().enumerate() {
                 if let Step::Call { lat_ms, err, .. } = st {
                     w.script.by_req.insert(
@@ -542,11 +565,15 @@ where
             Step::Call { lat_ms, err, .. } => {
                 let before = world::with(|w| w.calls_by_req.get(&(0, i as u32)).copied().unwrap_or(0));
                 let t_arr = world::now_us();
+                let blocked0 = world::with(|w| w.blocked_ms);
                 let r = match svc.ready().await {
                     Ok(s) => s.call(Req { id: i as u32, key: 0 }).await,
                     Err(e) => Err(e),
                 };
                 let t_done = world::now_us();
+                // time the call-permitted listener blocked: after the admission decision, before
+                // the inner call starts; not part of the call's duration
+                let t_start = t_arr + (world::with(|w| w.blocked_ms) - blocked0) * 1000;
                 let after = world::with(|w| w.calls_by_req.get(&(0, i as u32)).copied().unwrap_or(0));
                 let admitted = after > before;
                 admitted_obs = Some(admitted);
@@ -560,10 +587,10 @@ where
                 for m in models.iter_mut() {
                     let adm = m.arrive(&cfg, t_arr);
                     if adm {
-                        if m.expire(&cfg, t_arr + lat_ms * 1000) {
+                        if m.expire(&cfg, t_start + lat_ms * 1000) {
                             expired_since_transition = true;
                         }
-                        m.record(&cfg, t_arr + lat_ms * 1000, fail, slow);
+                        m.record(&cfg, t_start + lat_ms * 1000, fail, slow);
                     }
                     // remember admission in a scratch slot (ho_successes untouched): encode via since_transition? keep separate below
                     m.flags = (m.flags & 0x3f) | if adm { 0x40 } else { 0 };
